@@ -361,9 +361,11 @@ VEX_REG_CLASSES = {"rvm": (0x72, 0x75), "rm": (0x68, 0x6B), "rvmi": (0x7A, 0x7C)
                    # X86Arith, X86Test, register-register: the class emits the [rm, reg] form; 8-bit operands in both kinds (gpb, gpbhi)
                    "larith": (0x19, 0x3D),
                    # X86Rot: shift / rotate a register by an imm8 ([rm, imm8] with an opcode-extension digit), all operand sizes
-                   "lrot": (0x37,)}
+                   "lrot": (0x37,),
+                   # X86Arith `op r8, imm8` (80 /d ib)
+                   "larithi8": (0x19,)}
 SHAPE_ROLES = {"rvm": ["reg", "vvvv", "rm"], "rm": ["reg", "rm"], "rvmi": ["reg", "vvvv", "rm", "imm"], "rmi": ["reg", "rm", "imm"],
-               "lrm": ["reg", "rm"], "lmr": ["rm", "reg"], "lrmi": ["reg", "rm", "imm"], "lop": None, "larith": ["rm", "reg"], "lrot": ["rm", "imm"]}
+               "lrm": ["reg", "rm"], "lmr": ["rm", "reg"], "lrmi": ["reg", "rm", "imm"], "lop": None, "larith": ["rm", "reg"], "lrot": ["rm", "imm"], "larithi8": ["rm", "imm"]}
 
 
 def class_rows_lean(kept, rows, chunk=96):
@@ -386,6 +388,8 @@ def class_rows_lean(kept, rows, chunk=96):
                     continue
             elif roles != SHAPE_ROLES[shape]:
                 continue
+            if shape == "larithi8" and f["operands"][0]["reg"] != "r8":
+                continue
             if legacy:
                 pass
             elif (f["prefix"] == "EVEX" and not int(r[4], 16) & 0x800000) or (f["prefix"] == "VEX" and not int(r[4], 16) & 0x400000):
@@ -399,7 +403,7 @@ def class_rows_lean(kept, rows, chunk=96):
                     if o["imm"] != 8:
                         okf = False
                     continue
-                if o["reg"] not in CLASS or (len(CLASS[o["reg"]]) != 1 and shape not in ("larith", "lrot")) or o["implicit"]:
+                if o["reg"] not in CLASS or (len(CLASS[o["reg"]]) != 1 and shape not in ("larith", "lrot", "larithi8")) or o["implicit"]:
                     okf = False
                     break
                 kinds.append(CLASS[o["reg"]])
